@@ -31,7 +31,10 @@ class FakeDatetime(_REAL_DATETIME, metaclass=_FakeDatetimeMeta):
     @classmethod
     def now(cls, tz=None):
         _STATE["clock"] += 1
-        us = _STATE["clock"] * _STATE["clock_step_us"]
+        # +1: with the default step the microsecond field is never 0 (isoformat() drops it then, which changes the
+        # length of a frame's JSON and therefore its size); variants that WANT whole-second stamps use a 1e6 step and
+        # clock_offset_us=0
+        us = _STATE["clock"] * _STATE["clock_step_us"] + _STATE.get("clock_offset_us", 1)
         base = _REAL_DATETIME.fromtimestamp(_STATE["clock_origin"], tz=_dt.timezone.utc).replace(tzinfo=None)
         return base + _dt.timedelta(microseconds=us)
 
@@ -52,10 +55,12 @@ def _mix64(x):
 def _fake_randbits(k):
     _STATE["bits"] += 1
     mode = _STATE["bits_mode"]
-    if k == 16 and mode == "max":  # ICMP identifiers at the top of their range
-        return 65535 - (_STATE["bits"] % 3)
+    # ICMP identifiers at the top / bottom of their range, but still unique (collisions of real random identifiers
+    # have probability 2^-16 per pair; generating them on purpose would violate a precondition every run relies on)
+    if k == 16 and mode == "max":
+        return 65535 - (_STATE["bits"] % 65536)
     if k == 16 and mode == "min":
-        return _STATE["bits"] % 3
+        return _STATE["bits"] % 65536
     return _mix64(_STATE["bits"]) & ((1 << k) - 1)
 
 
@@ -98,10 +103,11 @@ def install():
     _STATE["installed"] = True
 
 
-def reset(uuid_base: int = 0, bits_mode: str = "counter", clock_origin: int = 1_700_000_000, clock_step_us: int = 1000):
+def reset(uuid_base: int = 0, bits_mode: str = "counter", clock_origin: int = 1_700_000_000, clock_step_us: int = 1000,
+          clock_offset_us: int = 1):
     """Start a fresh, reproducible entropy stream (call at the start of every case)."""
     _STATE.update(uuid=0, bits=0, tok=0, clock=0, uuid_base=uuid_base, bits_mode=bits_mode,
-                  clock_origin=clock_origin, clock_step_us=clock_step_us)
+                  clock_origin=clock_origin, clock_step_us=clock_step_us, clock_offset_us=clock_offset_us)
 
 
 def snapshot():
